@@ -403,6 +403,13 @@ def catalogue():
                           ("middle-of-three", "label = \"total\"\n", "[count, label, rest] = [3, 4, 5]"), ("two-existing-then-new", "label = \"total\"\nflag = true\n", "[label, flag, rest] = [3, 4, 5]")):
         c.append(("cat|unpack-retypes-existing-name:" + nm, pre_ + "describe = fn() -> str {\n\treturn label\n}\nprint \"@run\"\n" + unp + "\n" + probe("label") + probe("describe()") + probe("(describe()).len()")))
         c.append(("cat|unpack-retypes-existing-name-in-function:" + nm, "run = fn() -> int {\n" + "".join("\t" + l + "\n" for l in (pre_ + "describe = fn() -> str {\n\treturn label\n}\n" + unp + "\n" + probe("(describe()).len()")).strip().split("\n")) + "\treturn 1\n}\nprint \"@run\"\n" + probe("run()")))
+    # a function that must yield a value ends in an `if` whose condition the compiler can compute: only a condition that is TRUE makes
+    # the branch a return on every path
+    for nm, cond in (("false", "false"), ("not-true", "!true"), ("folded-comparison", "1 > 2"), ("folded-and", "true && false"), ("true", "true"), ("not-false", "!false")):
+        for shape, body in (("plain", "if %s {\n\t\treturn 42\n\t}" % cond), ("after-statement", "print \"in\"\n\tif %s {\n\t\treturn 42\n\t}" % cond),
+                            ("else-without-return", "if %s {\n\t\treturn 42\n\t} else {\n\t\tprint \"no\"\n\t}" % cond),
+                            ("nested", "if g > 0 {\n\t\tif %s {\n\t\t\treturn 42\n\t\t}\n\t} else {\n\t\treturn 1\n\t}" % cond)):
+            c.append(("cat|constant-condition-hides-missing-return:%s:%s" % (nm, shape), "g = 1\nf = fn() -> int {\n\t%s\n}\nprint \"@run\"\n" % body + probe("f()") + probe("f() + 1")))
     c.append(("cat|push-wrong-through-alias", "a: [int...] = [1]\nb = a\nprint \"@run\"\nb.push(\"x\")\nd = a[1] + 1\nprint d\n"))
     c.append(("cat|index-of-mismatch", "a: [int...] = [1]\nprint \"@run\"\n" + probe("a.index_of(\"x\")")))
     c.append(("cat|export-type-mismatch", "import v from lib\nprint \"@run\"\n" + probe("v") + probe("v + 1"), {"lib.ms": "export v: int = 5\n"}))
